@@ -38,6 +38,14 @@
    AggLet                  value, query          <<x>>            (AggLet x False value query)  = (Let agg x ..)
    AggExplode              array, query          <<x>>            (AggExplode x False array query)
 
+   StreamAggScan           a, query              <<x>>            (StreamAggScan x a query)   (value-IR scan site)
+   ScanSum ScanMax ..      seq-arg               -                (ApplyScanOp Sum () (arg))
+   ScanCount               -                     -                (ApplyScanOp Count () ())
+   ScanFilter              cond, query           -                (AggFilter True cond query)
+   ScanLet                 value, query          <<x>>            (AggLet x True value query)  = (Let scan x ..)
+   Site                    new-row expression    <<kind>>         (MatrixMapRows child e) "mrows", (MatrixMapCols ..) "mcols",
+                                                                  (TableMapRows child e) "trows": eval + agg + scan scopes
+
    Aggregation context.  A query is evaluated in an eval environment plus a sequence ROWS of agg
    environments (one per element being aggregated over).  StreamAgg creates the rows (eval
    environment + element variable); the seq-arg of an aggregator, the condition of AggFilter and
@@ -99,18 +107,49 @@ IndexOf(names, x) ==
   LET hits == { i \in DOMAIN names : names[i] = x } IN IF hits = {} THEN 0 ELSE CHOOSE i \in hits : TRUE
 
 (* ------------------------------- big-step evaluator ------------------------------------- *)
-RECURSIVE Eval(_, _, _, _), FoldFrom(_, _, _, _, _, _, _)
+(* EvalS(T, j, env, rows, srows): rows = the agg environments (one per aggregated element), srows = the
+   scan environments (one per PREVIOUS element: a scan is the running aggregation over the elements
+   before the current one).  Promotion follows BindingEnv.promoteAgg / promoteScan: the seq-arg of an
+   aggregator is evaluated with eval := the row, no agg scope, the scan scope kept (and symmetrically). *)
+RECURSIVE EvalS(_, _, _, _, _), FoldFrom(_, _, _, _, _, _, _, _)
 
-FoldFrom(T, j, env, rows, elems, acc, i) ==    \* j = the StreamFold node
+FoldFrom(T, j, env, rows, srows, elems, acc, i) ==    \* j = the StreamFold node
   IF i > Len(elems) THEN acc
-  ELSE FoldFrom(T, j, env, rows, elems,
-                Eval(T, T[j].k[3], Bind(Bind(env, T[j].n[1], acc), T[j].n[2], elems[i]), rows), i + 1)
+  ELSE FoldFrom(T, j, env, rows, srows, elems,
+                EvalS(T, T[j].k[3], Bind(Bind(env, T[j].n[1], acc), T[j].n[2], elems[i]), rows, srows), i + 1)
 
-Eval(T, j, env, rows) ==
+RECURSIVE MaxInts(_, _)
+MaxInts(vals, i) ==     \* max aggregator: missing values are skipped, no value -> missing
+  IF i > Len(vals) THEN VNA
+  ELSE LET r == MaxInts(vals, i + 1) IN
+       IF vals[i].t # "i" THEN r ELSE IF r.t # "i" THEN vals[i] ELSE IF vals[i].i >= r.i THEN vals[i] ELSE r
+
+(* the fixed little data set behind a relational binding site: 3 rows x 2 columns *)
+SiteRows == <<0, 1, 2>>
+SiteCols == <<0, 1>>
+OneField(f, i) == VStruct(<<f>>, <<VInt(i)>>)
+Empty == VStruct(<<>>, <<>>)
+SiteEnv(kind, i) ==      \* eval = scan environment of element i of the site
+  CASE kind = "mrows" -> <<[n |-> "global", v |-> Empty], [n |-> "va", v |-> OneField("row_idx", i)]>>
+    [] kind = "mcols" -> <<[n |-> "global", v |-> Empty], [n |-> "sa", v |-> OneField("col_idx", i)]>>
+    [] OTHER          -> <<[n |-> "global", v |-> Empty], [n |-> "row", v |-> OneField("idx", i)]>>
+SiteAggRows(kind, i) ==  \* the entries aggregated over for element i (a table row has none)
+  CASE kind = "mrows" -> [c \in 1..Len(SiteCols) |-> <<[n |-> "global", v |-> Empty], [n |-> "va", v |-> OneField("row_idx", i)],
+                                                       [n |-> "sa", v |-> OneField("col_idx", SiteCols[c])], [n |-> "g", v |-> Empty]>>]
+    [] kind = "mcols" -> [r \in 1..Len(SiteRows) |-> <<[n |-> "global", v |-> Empty], [n |-> "va", v |-> OneField("row_idx", SiteRows[r])],
+                                                       [n |-> "sa", v |-> OneField("col_idx", i)], [n |-> "g", v |-> Empty]>>]
+    [] OTHER -> <<>>
+SiteElems(kind) == IF kind = "mcols" THEN SiteCols ELSE SiteRows
+SiteExtra(kind) == CASE kind = "mrows" -> <<[n |-> "n_cols", v |-> VInt(Len(SiteCols))]>>
+                     [] kind = "mcols" -> <<[n |-> "n_rows", v |-> VInt(Len(SiteRows))]>>
+                     [] OTHER -> <<>>
+
+EvalS(T, j, env, rows, srows) ==
   LET nd == T[j]
       op == nd.op
-      C(i) == Eval(T, nd.k[i], env, rows)
-      PerRow(c) == [r \in 1..Len(rows) |-> Eval(T, c, rows[r], <<>>)]   \* promoted: the row IS the eval env
+      C(i) == EvalS(T, nd.k[i], env, rows, srows)
+      PerRow(c)  == [r \in 1..Len(rows)  |-> EvalS(T, c, rows[r], <<>>, srows)]    \* promoted: the row IS the eval env
+      PerSRow(c) == [r \in 1..Len(srows) |-> EvalS(T, c, srows[r], rows, <<>>)]
   IN CASE op = "I32"   -> VInt(Wrap(nd.v))
        [] op = "NA"    -> VNA
        [] op = "True"  -> VBool(TRUE)
@@ -121,7 +160,7 @@ Eval(T, j, env, rows) ==
        [] op = "If" ->
             LET c == C(1) IN
             IF c.t = "na" THEN VNA ELSE IF c.t # "b" THEN VErr ELSE IF c.i = 1 THEN C(2) ELSE C(3)
-       [] op = "Let" -> Eval(T, nd.k[2], Bind(env, nd.n[1], C(1)), rows)
+       [] op = "Let" -> EvalS(T, nd.k[2], Bind(env, nd.n[1], C(1)), rows, srows)
        [] op = "MakeArray" -> VArr([i \in 1..Len(nd.k) |-> C(i)])
        [] op = "ArrayLen" ->
             LET a == C(1) IN IF a.t = "a" THEN VInt(Len(a.s)) ELSE IF a.t = "na" THEN VNA ELSE VErr
@@ -129,15 +168,15 @@ Eval(T, j, env, rows) ==
        [] op = "StreamMap" ->
             LET a == C(1) IN
             IF a.t # "a" THEN (IF a.t = "na" THEN VNA ELSE VErr)
-            ELSE VArr([i \in 1..Len(a.s) |-> Eval(T, nd.k[2], Bind(env, nd.n[1], a.s[i]), rows)])
+            ELSE VArr([i \in 1..Len(a.s) |-> EvalS(T, nd.k[2], Bind(env, nd.n[1], a.s[i]), rows, srows)])
        [] op = "StreamFilter" ->
             LET a == C(1) IN
             IF a.t # "a" THEN (IF a.t = "na" THEN VNA ELSE VErr)
-            ELSE VArr(SelectSeq(a.s, LAMBDA e : Eval(T, nd.k[2], Bind(env, nd.n[1], e), rows) = VBool(TRUE)))
+            ELSE VArr(SelectSeq(a.s, LAMBDA e : EvalS(T, nd.k[2], Bind(env, nd.n[1], e), rows, srows) = VBool(TRUE)))
        [] op = "StreamFold" ->
             LET a == C(1) IN
             IF a.t # "a" THEN (IF a.t = "na" THEN VNA ELSE VErr)
-            ELSE FoldFrom(T, j, env, rows, a.s, C(2), 1)
+            ELSE FoldFrom(T, j, env, rows, srows, a.s, C(2), 1)
        [] op = "MakeStruct" -> VStruct(nd.n, [i \in 1..Len(nd.k) |-> C(i)])
        [] op = "GetField" ->
             LET s == C(1) IN
@@ -158,59 +197,100 @@ Eval(T, j, env, rows) ==
                     IN VStruct(s.f \o [i \in 1..Len(addI) |-> nd.n[addI[i]]],
                                old \o [i \in 1..Len(addI) |-> C(addI[i] + 1)])
        (* ---- aggregation ---- *)
-       [] op = "StreamAgg" ->
+       [] op = "StreamAgg" ->      \* createAgg: a new agg scope, the scan scope is emptied
             LET a == C(1)
                 elems == IF a.t = "a" THEN a.s ELSE <<>>
-            IN Eval(T, nd.k[2], env, [i \in 1..Len(elems) |-> Bind(env, nd.n[1], elems[i])])
+            IN EvalS(T, nd.k[2], env, [i \in 1..Len(elems) |-> Bind(env, nd.n[1], elems[i])], <<>>)
        [] op = "AggSum"     -> VInt(Wrap(SumInts(PerRow(nd.k[1]), 1)))
+       [] op = "AggMax"     -> MaxInts(PerRow(nd.k[1]), 1)
        [] op = "AggCollect" -> VArr(PerRow(nd.k[1]))
        [] op = "AggCount"   -> VInt(Len(rows))
        [] op = "AggFilter" ->
-            Eval(T, nd.k[2], env, SelectSeq(rows, LAMBDA r : Eval(T, nd.k[1], r, <<>>) = VBool(TRUE)))
+            EvalS(T, nd.k[2], env, SelectSeq(rows, LAMBDA r : EvalS(T, nd.k[1], r, <<>>, srows) = VBool(TRUE)), srows)
        [] op = "AggLet" ->
-            Eval(T, nd.k[2], env, [r \in 1..Len(rows) |-> Bind(rows[r], nd.n[1], Eval(T, nd.k[1], rows[r], <<>>))])
+            EvalS(T, nd.k[2], env, [r \in 1..Len(rows) |-> Bind(rows[r], nd.n[1], EvalS(T, nd.k[1], rows[r], <<>>, srows))], srows)
        [] op = "AggExplode" ->
             LET per == [r \in 1..Len(rows) |->
-                          LET a == Eval(T, nd.k[1], rows[r], <<>>)
+                          LET a == EvalS(T, nd.k[1], rows[r], <<>>, srows)
                               es == IF a.t = "a" THEN a.s ELSE <<>>
                           IN [i \in 1..Len(es) |-> Bind(rows[r], nd.n[1], es[i])]]
-            IN Eval(T, nd.k[2], env, Flatten(per, 1))
+            IN EvalS(T, nd.k[2], env, Flatten(per, 1), srows)
+       (* ---- scans: the same over the scan rows ---- *)
+       [] op = "StreamAggScan" ->  \* createScan: element i sees the elements before it; eval binds the element too
+            LET a == C(1) IN
+            IF a.t # "a" THEN (IF a.t = "na" THEN VNA ELSE VErr)
+            ELSE VArr([i \in 1..Len(a.s) |->
+                         EvalS(T, nd.k[2], Bind(env, nd.n[1], a.s[i]), <<>>,
+                               [p \in 1..(i - 1) |-> Bind(env, nd.n[1], a.s[p])])])
+       [] op = "ScanSum"     -> VInt(Wrap(SumInts(PerSRow(nd.k[1]), 1)))
+       [] op = "ScanMax"     -> MaxInts(PerSRow(nd.k[1]), 1)
+       [] op = "ScanCollect" -> VArr(PerSRow(nd.k[1]))
+       [] op = "ScanCount"   -> VInt(Len(srows))
+       [] op = "ScanFilter" ->
+            EvalS(T, nd.k[2], env, rows, SelectSeq(srows, LAMBDA r : EvalS(T, nd.k[1], r, rows, <<>>) = VBool(TRUE)))
+       [] op = "ScanLet" ->
+            EvalS(T, nd.k[2], env, rows, [r \in 1..Len(srows) |-> Bind(srows[r], nd.n[1], EvalS(T, nd.k[1], srows[r], rows, <<>>))])
+       (* ---- relational binding sites (MatrixMapRows / MatrixMapCols / TableMapRows new-row expression) ---- *)
+       [] op = "Site" ->
+            LET kind == nd.n[1]
+                es   == SiteElems(kind)
+            IN VArr([i \in 1..Len(es) |->
+                       EvalS(T, nd.k[1], SiteEnv(kind, es[i]) \o SiteExtra(kind), SiteAggRows(kind, es[i]),
+                             [p \in 1..(i - 1) |-> SiteEnv(kind, es[p])])])
        [] OTHER -> VErr
 
-(* ------------------------------- scoping ------------------------------------------------- *)
-(* Problems(T, j, E, A, ag, O): the scoping faults of the term at j when the eval environment binds E,
-   the agg environment binds A and ag says whether an agg environment exists at all
-   (BindingEnv.agg.isDefined).  Mirrors Bindings.childEnvValue in Binds.scala.                   *)
-AggOps == {"AggSum", "AggCollect", "AggCount", "AggFilter", "AggLet", "AggExplode"}
+Eval(T, j, env, rows) == EvalS(T, j, env, rows, <<>>)
 
-(* O = the names bound only in the OTHER environment at this position (classification only:
-   a reference to such a name is bound, but in the wrong context: "wrongscope")                    *)
-RECURSIVE Problems(_, _, _, _, _, _)
-Problems(T, j, E, A, ag, O) ==
+(* ------------------------------- scoping ------------------------------------------------- *)
+(* ProblemsC(T, j, c): the scoping faults of the term at j in the binding context
+      c = [E, A, ag, S, sg, O]   E / A / S = names bound in the eval / agg / scan environment,
+                                  ag / sg = whether an agg / scan environment exists (BindingEnv.agg/scan.isDefined),
+                                  O = names bound only in ANOTHER environment (classification: "wrongscope").
+   Mirrors Bindings.childEnvValue / childEnvTable / childEnvMatrix in Binds.scala and BindingEnv.extend. *)
+AggOps  == {"AggSum", "AggMax", "AggCollect", "AggCount", "AggFilter", "AggLet", "AggExplode"}
+ScanOps == {"ScanSum", "ScanMax", "ScanCollect", "ScanCount", "ScanFilter", "ScanLet"}
+BCtx(E, A, ag, S, sg, O) == [E |-> E, A |-> A, ag |-> ag, S |-> S, sg |-> sg, O |-> O]
+
+SiteScopes(kind) ==
+  CASE kind = "mrows" -> BCtx({"global", "va", "n_cols"}, {"global", "va", "sa", "g"}, TRUE, {"global", "va"}, TRUE, {"sa", "g"})
+    [] kind = "mcols" -> BCtx({"global", "sa", "n_rows"}, {"global", "va", "sa", "g"}, TRUE, {"global", "sa"}, TRUE, {"va", "g"})
+    [] OTHER          -> BCtx({"global", "row"}, {}, FALSE, {"global", "row"}, TRUE, {})
+
+RECURSIVE ProblemsC(_, _, _)
+ProblemsC(T, j, c) ==
   LET nd == T[j]
       op == nd.op
-      P(i, e, a, g, o) == Problems(T, nd.k[i], e, a, g, o)
-      Same(i)    == P(i, E, A, ag, O)
-      Prom(i)    == P(i, A, {}, FALSE, E)            \* promoted position: the agg env is the eval env
-      NoAgg == IF op \in AggOps /\ ~ag THEN {[why |-> "noagg", x |-> op]} ELSE {}
-  IN NoAgg \cup
-     CASE op = "Ref" -> IF nd.n[1] \in E THEN {}
-                        ELSE {[why |-> IF nd.n[1] \in O THEN "wrongscope" ELSE "unbound", x |-> nd.n[1]]}
-       [] op = "Let" -> Same(1) \cup P(2, E \cup {nd.n[1]}, A, ag, O \ {nd.n[1]})
-       [] op \in {"StreamMap", "StreamFilter"} -> Same(1) \cup P(2, E \cup {nd.n[1]}, A, ag, O \ {nd.n[1]})
-       [] op = "StreamFold" -> Same(1) \cup Same(2) \cup P(3, E \cup {nd.n[1], nd.n[2]}, A, ag, O \ {nd.n[1], nd.n[2]})
-       [] op = "StreamAgg"  -> Same(1) \cup P(2, E, E \cup {nd.n[1]}, TRUE, {nd.n[1]})
-       [] op \in {"AggSum", "AggCollect"} -> IF ag THEN Prom(1) ELSE {}
-       [] op = "AggFilter"  -> IF ag THEN Prom(1) \cup Same(2) ELSE {}
-       [] op = "ScanLet"    -> {[why |-> "noscan", x |-> nd.n[1]]}     \* (AggLet x True ..): there is no scan context in the fragment
-       [] op \in {"AggLet", "AggExplode"} ->
-            IF ag THEN Prom(1) \cup P(2, E, A \cup {nd.n[1]}, ag, (O \cup {nd.n[1]}) \ E) ELSE {}
+      P(i, cc)   == ProblemsC(T, nd.k[i], cc)
+      Same(i)    == P(i, c)
+      WithE(i, xs) == P(i, [c EXCEPT !.E = @ \cup xs, !.O = @ \ xs])
+      PromA(i)   == P(i, [c EXCEPT !.E = c.A, !.A = {}, !.ag = FALSE, !.O = (c.E \cup c.S \cup c.O) \ c.A])   \* promoteAgg
+      PromS(i)   == P(i, [c EXCEPT !.E = c.S, !.S = {}, !.sg = FALSE, !.O = (c.E \cup c.A \cup c.O) \ c.S])   \* promoteScan
+      NoCtx == (IF op \in AggOps /\ ~c.ag THEN {[why |-> "noagg", x |-> op]} ELSE {})
+               \cup (IF op \in ScanOps /\ ~c.sg THEN {[why |-> "noscan", x |-> op]} ELSE {})
+  IN NoCtx \cup
+     CASE op = "Ref" -> IF nd.n[1] \in c.E THEN {}
+                        ELSE {[why |-> IF nd.n[1] \in (c.O \cup c.A \cup c.S) THEN "wrongscope" ELSE "unbound", x |-> nd.n[1]]}
+       [] op = "Let" -> Same(1) \cup WithE(2, {nd.n[1]})
+       [] op \in {"StreamMap", "StreamFilter"} -> Same(1) \cup WithE(2, {nd.n[1]})
+       [] op = "StreamFold" -> Same(1) \cup Same(2) \cup WithE(3, {nd.n[1], nd.n[2]})
+       [] op = "StreamAgg"  -> Same(1) \cup P(2, [c EXCEPT !.A = c.E \cup {nd.n[1]}, !.ag = TRUE, !.S = {}, !.O = (c.O \cup c.A \cup c.S) \ c.E])
+       [] op = "StreamAggScan" ->
+            Same(1) \cup P(2, [c EXCEPT !.E = @ \cup {nd.n[1]}, !.S = c.E \cup {nd.n[1]}, !.sg = TRUE, !.A = {},
+                                        !.O = (c.O \cup c.A \cup c.S) \ (c.E \cup {nd.n[1]})])
+       [] op \in {"AggSum", "AggMax", "AggCollect"} -> IF c.ag THEN PromA(1) ELSE {}
+       [] op = "AggFilter"  -> IF c.ag THEN PromA(1) \cup Same(2) ELSE {}
+       [] op \in {"AggLet", "AggExplode"} -> IF c.ag THEN PromA(1) \cup P(2, [c EXCEPT !.A = @ \cup {nd.n[1]}]) ELSE {}
+       [] op \in {"ScanSum", "ScanMax", "ScanCollect"} -> IF c.sg THEN PromS(1) ELSE {}
+       [] op = "ScanFilter" -> IF c.sg THEN PromS(1) \cup Same(2) ELSE {}
+       [] op = "ScanLet"    -> IF c.sg THEN PromS(1) \cup P(2, [c EXCEPT !.S = @ \cup {nd.n[1]}]) ELSE {}
+       [] op = "Site"       -> P(1, SiteScopes(nd.n[1]))           \* inFreshScope: nothing of the enclosing context is visible
        [] OTHER -> UNION { Same(i) : i \in DOMAIN nd.k }
 
+Problems(T, j, E, A, ag, O) == ProblemsC(T, j, BCtx(E, A, ag, {}, FALSE, O))
 WellScoped(T, j, E) == Problems(T, j, E, {}, FALSE, {}) = {}
 
 (* binder names occurring in a term (for the "no capture" facts) *)
-BinderOps == {"Let", "StreamMap", "StreamFilter", "StreamFold", "StreamAgg", "AggLet", "AggExplode"}
+BinderOps == {"Let", "StreamMap", "StreamFilter", "StreamFold", "StreamAgg", "StreamAggScan", "AggLet", "AggExplode", "ScanLet"}
 Binders(T) == UNION { { T[j].n[i] : i \in DOMAIN T[j].n } : j \in { j \in DOMAIN T : T[j].op \in BinderOps } }
 
 (* ------------------------------- the property ------------------------------------------- *)
